@@ -74,6 +74,37 @@ def selected_schemas(ctx, handler, v):
     return out
 
 
+def _mentions_schema_module(prog, h):
+    """A same-module helper that selects a schema: it names the
+    placement.schemas package (a constant of it, or the module itself as
+    the first argument of getattr)."""
+    if h.decorators:
+        return False
+    for n in own_nodes(h.node):
+        if isinstance(n, (ast.Attribute, ast.Name)):
+            d = prog.dotted(h.module, n, h)
+            if d and d.startswith('placement.schemas.'):
+                return True
+    return False
+
+
+def version_list_const(ctx, modname):
+    """(name, value) of the module-level constant that is a list of
+    (major, minor) tuples - the first-match schema list."""
+    env = ctx.prog.consteval.module_env(modname)
+    hits = []
+    for k, v in env.items():
+        if isinstance(v, list) and v and all(
+                isinstance(t, tuple) and len(t) == 2 and all(
+                    isinstance(x, int) for x in t) for t in v):
+            hits.append((k, v))
+    if len(hits) != 1:
+        raise model.AnalysisError(
+            'expected one list of (major, minor) versions in %s, found %s'
+            % (modname, [k for k, _v in hits]))
+    return hits[0]
+
+
 def schema_candidates(ctx, fs):
     """Schema constants a route may validate against: those referenced by
     its handler definitions (and their delegates), those named by a
@@ -90,7 +121,7 @@ def schema_candidates(ctx, fs):
         for g in list(funcs):
             for h in ctx.cg.callees(g):
                 if h.module is g.module and h not in funcs and \
-                        h.name.startswith('_get_schema'):
+                        _mentions_schema_module(prog, h):
                     funcs.append(h)
     for f in funcs:
         for n in own_nodes(f.node):
@@ -205,8 +236,8 @@ def r141(ctx, R):
              [('%d.%d' % w[0], '%d.%d' % w[1] if w[1] else None)
               for w in wins], func=wins[0][3])
     # the schema list of GET /allocation_candidates names existing schemas
-    lst = ctx.prog.const('placement.handlers.allocation_candidate',
-                         '_GET_SCHEMA_MICROVERSIONS')
+    _lname, lst = version_list_const(
+        ctx, 'placement.handlers.allocation_candidate')
     env = ctx.prog.consteval.module_env('placement.schemas.'
                                         'allocation_candidate')
     okl = isinstance(lst, list) and all(
